@@ -49,7 +49,7 @@ ASSUMPTIONS = [
 
 # float64 tensors / layers (dtype="float64").  See the report: the hand-written
 # gradient hard-codes float32.  One switch so the lead can decide.
-GEN_FLOAT64 = False
+GEN_FLOAT64 = True
 
 KINDS = (["prod"] * 7 + ["kfl"] * 7 + ["lattice"] * 3 + ["pwl"] * 3 +
          ["cat"] * 1)
